@@ -40,6 +40,20 @@ pub fn check(t: &Trace<'_>, out: &mut CaseOut) -> bool {
         if !inuse.is_empty() {
             out.count("allocations_with_ids_in_use", 1);
         }
+        if inuse.len() >= 9 {
+            out.count("allocations_with_nine_or_more_ids_in_use", 1);
+            // how long is the run of in-use identifiers the counter had to step over?
+            let before = t.log.ops[msg.op].snap_before.as_ref().map(|s| s.next_packet_id).unwrap_or(0);
+            let mut run = 0u32;
+            let mut id = before;
+            while run < 20 && inuse.iter().any(|o| o.pid == id) {
+                run += 1;
+                id = if id == 65535 { 1 } else { id + 1 };
+            }
+            if run >= 9 {
+                out.count("allocations_stepping_over_nine_or_more_ids", 1);
+            }
+        }
         // identifiers that live in the release list only (QoS 2 after PUBREC) while nothing is retained
         if t.log.ops[msg.op].snap_before.as_ref().is_some_and(|s| s.tx.retained.is_empty() && !s.tx.release.is_empty()) {
             out.count("allocations_with_only_released_ids_in_use", 1);
